@@ -176,6 +176,7 @@ def jobs(tier):
     for fmt in b["formats"]:
         out.append({"name": "validators/%s" % fmt, "kind": "validators", "fmt": fmt})
     out.append({"name": "nested-containers", "kind": "nested", "formats": b["formats"]})
+    out.append({"name": "include-mismatch", "kind": "incmismatch", "formats": b["formats"]})
     return out
 
 
@@ -191,6 +192,8 @@ def run_job(job, ctx):
         _validators(job, ctx)
     elif job["kind"] == "nested":
         _nested(job, ctx)
+    elif job["kind"] == "incmismatch":
+        _include_mismatch(job, ctx)
     else:
         _shapes(job, ctx)
 
@@ -207,7 +210,15 @@ def _nested(job, ctx):
     wraps = [("dict-of-list", "d", {"d": {"k": [{"c": 1}, {"c": 10}]}}, "d[k][1].c"),
              ("list-of-list", "ll", {"ll": [[{"c": 1}], [{"c": 1}, {"c": 10}]]}, "ll[1][1].c"),
              ("sub-dict-of-list", "sub", {"sub": {"d": {"k": [{"c": 10}]}}}, "sub.d[k][0].c"),
-             ("sub-list-of-list", "sub", {"sub": {"ll": [[{"c": 10}]]}}, "sub.ll[0][0].c")]
+             ("sub-list-of-list", "sub", {"sub": {"ll": [[{"c": 10}]]}}, "sub.ll[0][0].c"),
+             # typed containers of typed containers of scalars
+             ("dict-of-dict", "dd", {"dd": {"ann": {"cpu": 1}, "bob": {"cpu": 10}}}, "dd[bob][cpu]"),
+             ("dict-of-intlist", "dl", {"dl": {"bob": [1, 10]}}, "dl[bob][1]"),
+             ("list-of-dict", "ld", {"ld": [{"a": 1}, {"cpu": 10}]}, "ld[1][cpu]"),
+             ("sub-dict-of-dict", "sub", {"sub": {"dd": {"bob": {"cpu": 10}}}}, "sub.dd[bob][cpu]")]
+    # (the full path is known finding N10; what the pinned code does deliver for containers held by a typed dict - the declared
+    # field and the outer key - is demanded separately, so that losing those as well is still reported)
+    outer = {"dict-of-list": "d[k]", "sub-dict-of-list": "sub.d[k]", "dict-of-dict": "dd[bob]", "dict-of-intlist": "dl[bob]", "sub-dict-of-dict": "sub.dd[bob]"}
     for wname, top, tree, want in wraps:
         for route in ["load_tree", "ctor", "assign"] + ["loads/" + f for f in job["formats"]]:
             ident = [wname, route]
@@ -219,6 +230,9 @@ def _nested(job, ctx):
             for sch in (s, s.sub):
                 sch.d = cc.DictField(cc.StringField(), cc.ListField(item))
                 sch.ll = cc.ListField(cc.ListField(item))
+                sch.dd = cc.DictField(cc.StringField(), cc.DictField(cc.StringField(), cc.IntField(max=9)))
+                sch.dl = cc.DictField(cc.StringField(), cc.ListField(cc.IntField(max=9)))
+                sch.ld = cc.ListField(cc.DictField(cc.StringField(), cc.IntField(max=9)))
             cfg = s()
             ctx.transitions += 1
             if route == "load_tree":
@@ -232,6 +246,67 @@ def _nested(job, ctx):
                 exc = attempt(lambda: cfg.loads(cc.ConfigFormat.get(fmt).dumps(None, tree), fmt))
             ctx.case(("nested", wname, route), "nested:%s:%s" % (route.split("/")[0], type(exc).__name__ if exc else "accepted"), True)
             judge(ctx, job, ident, "C15|nested-containers|%s|%s" % (wname, route.split("/")[0]), "a list of configurations inside %s, value 10 for c (max 9) via %s" % (wname, route), exc, want, None)
+            if wname in outer and isinstance(exc, cc.ValidationError):
+                try:
+                    rp = exc.ref_path or ""
+                except Exception:  # noqa
+                    rp = ""
+                if not rp.startswith(outer[wname]):
+                    ctx.violation("C15|nested-containers|%s|%s|outer-entry-lost" % (wname, route.split("/")[0]),
+                                  "%s via %s: the error names %r, which does not even name the declared field and the entry %s" % (wname, route, rp, outer[wname]), _case(job, ident))
+    ctx.states += 1
+    ctx.traces += 1
+
+
+def _include_mismatch(job, ctx):
+    """the main document gives a map for a declared section / config type / typed dict; the file it includes (at the root or
+    inside the section) gives a value of another shape for the same key.  The included value wins, so the load is rejected:
+    with a ValidationError naming the declared field, as for the same value written in the main document itself"""
+    import os
+    import cincoconfig as cc
+    only = job.get("only")
+    targets = [("db", {"db": {"port": 1}}, "db", "root"), ("limits", {"limits": {"cpu": 2}}, "limits", "root"), ("labels", {"labels": {"a": 1}}, "labels", "root"),
+               ("db.pool", {"db": {"pool": {"size": 2}}}, "db.pool", "nested"), ("db.tags", {"db": {"tags": {"a": 1}}}, "db.tags", "nested")]
+    wrong = [("text", "oops"), ("number", 5), ("list", [1, 2]), ("true", True)]
+    for tname, main_tree, want, where in targets:
+        for wname, wvalue in wrong:
+            for fmt in job["formats"]:
+                for direct in (False, True):
+                    ident = [tname, wname, fmt, direct]
+                    if only is not None and only != ident:
+                        continue
+                    lim = cc.Schema()
+                    lim.cpu = cc.IntField(default=1)
+                    s = cc.Schema()
+                    s.include = cc.IncludeField(startdir=ctx.tmp)
+                    s.db.port = cc.IntField(default=5432)
+                    s.db.pool.size = cc.IntField(default=4)
+                    s.db.tags = cc.DictField(cc.StringField(), cc.IntField())
+                    s.db.include = cc.IncludeField(startdir=ctx.tmp)
+                    s.limits = cc.make_type(lim, "Limits15")
+                    s.labels = cc.DictField(cc.StringField(), cc.IntField())
+                    f = cc.ConfigFormat.get(fmt)
+                    leafkey = tname.split(".")[-1]
+                    main = json.loads(json.dumps(main_tree))
+                    if direct:
+                        # control: the wrong value written in the main document itself
+                        node = main
+                        for part in tname.split(".")[:-1]:
+                            node = node[part]
+                        node[leafkey] = wvalue
+                    else:
+                        with open(os.path.join(ctx.tmp, "part.inc"), "wb") as fh:
+                            fh.write(f.dumps(None, {leafkey: wvalue}))
+                        if where == "root":
+                            main["include"] = "part.inc"
+                        else:
+                            main["db"]["include"] = "part.inc"
+                    cfg = s()
+                    ctx.transitions += 1
+                    exc = attempt(lambda: cfg.loads(f.dumps(None, main), fmt))
+                    ctx.case(("include-mismatch", tname, wname, fmt, direct), "include-mismatch:%s" % (type(exc).__name__ if exc else "accepted"), True)
+                    judge(ctx, job, ident, "C15|include-mismatch|%s|%s|%s" % (tname, wname, "direct" if direct else "included"),
+                          "%s given as %s %s" % (tname, wname, "in the main document" if direct else "by the included file (the main document has a map there)"), exc, want, None, loose=[want])
     ctx.states += 1
     ctx.traces += 1
 
